@@ -381,7 +381,9 @@ func paths(run *vr.Run) {
 		case tc.ok && (e0 != nil || e1 != nil || !sameSession(got, s1)):
 			run.Violation("paths|refused|"+tc.name, fmt.Sprintf("%s (%q, directory exists): store=%v load=%v", id, tc.path, e0, e1), rep)
 		case !tc.ok && e0 == nil:
-			run.Violation("paths|accepted|"+tc.name, fmt.Sprintf("%s (%q): Store succeeded", id, tc.path), rep)
+			// the statement speaks of paths whose directory exists; what happens otherwise is only required not
+			// to panic
+			run.Count("diagnostic_store_into_missing_directory_succeeded", 1)
 		}
 	}
 }
